@@ -4,5 +4,5 @@ set -eu
 ROOT="$(cd "$(dirname "$0")" && pwd)"
 export CARGO_NET_OFFLINE=true
 mkdir -p "$ROOT/evidence" "$ROOT/replays" "$ROOT/.work"
-( cd "$ROOT/harness" && cargo build --offline --bins )
+( cd "$ROOT/harness" && CARGO_TARGET_DIR="$ROOT/.target" cargo build --offline --bins )
 ( cd /repo && cargo build --offline --bin versatiles --target-dir "$ROOT/.target-repo" )
